@@ -1,4 +1,5 @@
 import MockeryModel.Run.Plan
+import MockeryModel.Run.EndToEnd
 /-! Lemmas about the grouping of planned mocks into output files. -/
 namespace Mockery.Run
 
@@ -216,5 +217,57 @@ theorem groupFrom_error : ∀ (ms : List PlannedMock) (cs : List Collection) (se
         · exact Or.inl (hxn ▸ hd)
         · exact Or.inr (Or.inl (hxs ▸ hd))
         · exact Or.inr (Or.inr (hxt ▸ hd))
+
+open Mockery.Config
+
+theorem planAll_spec (configFile cwd : String) (srcOf : String → String → SrcInfo) :
+    ∀ (ms : List Mock) (ps : List PlannedMock), planAll configFile cwd srcOf ms = .ok ps →
+      ∀ p ∈ ps, ∃ m ∈ ms, planMock configFile cwd (srcOf m.pkg m.iface) m = .ok p
+  | [], ps, h => by simp [planAll] at h; subst h; intro p hp; cases hp
+  | m :: ms, ps, h => by
+    unfold planAll at h
+    cases h1 : planMock configFile cwd (srcOf m.pkg m.iface) m with
+    | error e => simp [h1] at h
+    | ok p1 =>
+      cases h2 : planAll configFile cwd srcOf ms with
+      | error e => simp [h1, h2] at h
+      | ok ps2 =>
+        simp only [h1, h2] at h
+        injection h with h; subst h
+        intro p hp
+        rcases List.mem_cons.1 hp with rfl | hp
+        · exact ⟨m, List.mem_cons_self, h1⟩
+        · obtain ⟨m', hm', hpm⟩ := planAll_spec configFile cwd srcOf ms ps2 h2 p hp
+          exact ⟨m', List.mem_cons_of_mem _ hm', hpm⟩
+
+theorem planMock_fields {configFile cwd : String} {src : SrcInfo} {m : Mock} {p : PlannedMock}
+    (h : planMock configFile cwd src m = .ok p) : p.srcPkg = m.pkg ∧ p.iface = m.iface ∧ p.entry = m.entry := by
+  unfold planMock at h
+  simp only at h
+  split at h
+  · injection h with h; subst h; exact ⟨rfl, rfl, rfl⟩
+  · cases h
+  · cases h
+
+theorem planAll_complete (configFile cwd : String) (srcOf : String → String → SrcInfo) :
+    ∀ (ms : List Mock) (ps : List PlannedMock), planAll configFile cwd srcOf ms = .ok ps →
+      ∀ m ∈ ms, ∃ p ∈ ps, planMock configFile cwd (srcOf m.pkg m.iface) m = .ok p
+  | [], ps, _ => by intro m hm; cases hm
+  | m0 :: ms, ps, h => by
+    unfold planAll at h
+    cases h1 : planMock configFile cwd (srcOf m0.pkg m0.iface) m0 with
+    | error e => simp [h1] at h
+    | ok p1 =>
+      cases h2 : planAll configFile cwd srcOf ms with
+      | error e => simp [h1, h2] at h
+      | ok ps2 =>
+        simp only [h1, h2] at h
+        injection h with h; subst h
+        intro m hm
+        rcases List.mem_cons.1 hm with rfl | hm
+        · exact ⟨p1, List.mem_cons_self, h1⟩
+        · obtain ⟨p, hp, hpm⟩ := planAll_complete configFile cwd srcOf ms ps2 h2 m hm
+          exact ⟨p, List.mem_cons_of_mem _ hp, hpm⟩
+
 
 end Mockery.Run
